@@ -597,8 +597,9 @@ func (k *Kernel) resched() {
 	me.Steps++
 	k.Stats.Steps++
 	k.Stats.KindCount[me.kind]++
-	if me.st == stRunnable || me.st == stDone {
-		// me took a step: spinners may retry
+	if me.kind != KGosched {
+		// me did something other than (re-)entering a spin wait: spinners may retry. (Also when me is
+		// about to block or sleep: it may have released what they are spinning on just before.)
 		k.wakeSpinners(me)
 	}
 	if !k.capped && k.Stats.Steps > k.cfg.MaxSteps {
